@@ -6,7 +6,7 @@ DESIGN_REF = "DESIGN.md section 3 C02"
 TECHNIQUE = ("deductive, value-universal/shape-bounded: contract chain intermediates -> Green's function -> Wick lemma -> energy "
              "with callees replaced by their contracts; CI kinds vs the Fock-space estimator; AD kinds by a lemma on wave_function_auto "
              "for an arbitrary bra, order by order in the finite-difference step")
-EXPLANATION = ("Identities of rational functions in ALL symbolic inputs (walker, trial, h0, h1 per spin, Cholesky matrices, Green's "
+EXPLANATION = ("all-sizes (proof): en.allsizes.{uhf,rhf[r=0],rhf[r=1]} - the real measurement intermediates composed with the real energy equal the Wick form in the full Green's function for ALL norb, electron numbers and numbers of Cholesky vectors (tensor normal form with symbolic sizes, DESIGN 2.3b). Identities of rational functions in ALL symbolic inputs (walker, trial, h0, h1 per spin, Cholesky matrices, Green's "
                "function symbols) at enumerated shapes. Single-determinant/NOCI kinds: energy function with the Green's-function helper "
                "replaced by fresh symbols equals the Wick form; the helper is verified against (w (C^+ w)^-1)^T; the Wick lemma links the "
                "Wick form to <psi|H|phi>/<psi|phi> with H written out on the Fock space. Hand-coded CI kinds: compared directly with the Fock "
@@ -59,5 +59,9 @@ def tasks(tier):
     for k, n, a, b, r, sdp, extra in hc:
         t.append((W, "obs_fock", dict(kind=k, norb=n, nu=a, nd=b, what="energy", restricted=r, spin_dep=sdp, **extra)))
     t.append((W, "obs_ru", dict(kind="rhf", norb=3, nocc=1, what="energy")))
+    # all sizes (norb, n_up, n_dn, nchol symbolic): tensor normal form of the real intermediates + estimator against the Wick form
+    t.append(("contracts.allsizes", "uhf_wick", dict(what="energy")))
+    t.append(("contracts.allsizes", "rhf_wick", dict(what="energy", restricted=True)))
+    t.append(("contracts.allsizes", "rhf_wick", dict(what="energy", restricted=False)))
     t.append((W, "canary", dict(which="energy")))
     return t
